@@ -1,3 +1,4 @@
+import BalmProofs.FallbackSpec
 import BalmProofs.SymHyp
 import Balm
 import BalmProofs.AttrTest
